@@ -96,7 +96,11 @@ impl XmlWorld {
                 if m == "discard_bom" && rng.chance(2, 3) && !input.starts_with('\u{feff}') {
                     input.insert(0, '\u{feff}');
                 }
-                XPipeline::Tree
+                if rng.chance(1, 6) {
+                    XPipeline::Driver
+                } else {
+                    XPipeline::Tree
+                }
             },
             XProp::C08 => {
                 let m = *rng.pick(C08_FLIPS);
@@ -123,6 +127,8 @@ impl XmlWorld {
                 }
                 if rng.chance(1, 10) {
                     XPipeline::RcDom
+                } else if rng.chance(1, 10) {
+                    XPipeline::Driver
                 } else if rng.chance(1, 2) {
                     XPipeline::Tree
                 } else {
@@ -155,7 +161,7 @@ impl XmlWorld {
                 *digest = o.digest;
                 add_stats(stats, &o);
                 if o.is_driver {
-                    stats.inc("xml_runs_through_driver_with_RcDom_and_drop");
+                    stats.inc("xml_runs_through_xml5ever_driver");
                     return Ok(());
                 }
                 if o.stats.livelock != 0 {
@@ -243,7 +249,7 @@ impl XmlWorld {
                 let ob = run_xml(&b, false);
                 *digest = ob.digest;
                 add_stats(stats, &ob);
-                if case.pipeline == XPipeline::Tree {
+                if matches!(case.pipeline, XPipeline::Tree | XPipeline::Driver) {
                     let (ta, tb) = (tree(&oa), tree(&ob));
                     if ta != tb {
                         let class = match (self.prop, m.as_str()) {
